@@ -9,17 +9,30 @@ impl  : the REAL pipeline of the scratch build -- SPHCompiler(a_evals, integrato
         the option matrix domain in {periodic, mirror (reflecting walls), none}
         x integrator.set_fixed_h in {False, True}: domain and fixed_h are part
         of the CASE, the generated source does not depend on them, so all
-        variants share one compiled module).
+        variants share one compiled module).  A case is a HISTORY of public
+        calls on ONE integrator object: steps interleaved with a second, third
+        ... `set_nnps` (new LinkedListNNPS / with neighbour cache / BoxSortNNPS
+        object, also given to the evaluators), `set_post_stage_callback`
+        (another callback / None), `set_fixed_h` toggled, particles added by
+        the user -- so anything an earlier step looked up and kept shows.
+        The tracer stepper methods come in several syntactic SHAPES (trailing
+        `else: pass`, `if ..: pass`, leading docstring + pass, body nested in
+        an if, multi-line signature, trailing comment ...) and the generated
+        one_timestep texts carry docstrings, comments, blank lines, `pass`,
+        multi-line calls: the generator reads the SOURCE TEXT of both.
         Observation: *tracer* steppers and *tracer* equations (generated source,
         compiled by the same pipeline) append every invocation to one event log
         (a constant array shared by all particle arrays, so the order is total
         in serial mode): (method, array id, d_idx, t, dt, stepper attribute,
         per-particle counter, x).  Python-level events go to the same log:
-        py_stage hooks, nnps.update / nnps.update_domain (a delegating proxy set
-        as `integrator.nnps`), evaluator.compute(t, dt) (delegating proxies in
-        `integrator.acceleration_evals`), the post-stage callback
-        (Integrator.set_post_stage_callback).
-model : lean PysphVerif.Model.Stepper run by model_c04 on the program that
+        py_stage hooks, nnps.update / nnps.update_domain WITH THE IDENTITY of the
+        NNPS object asked (Python subclasses of the shipped NNPS classes, handed
+        over through the public set_nnps), evaluator.compute(t, dt) (delegating proxies in
+        `integrator.acceleration_evals`), the post-stage callback with the
+        identity of the callback object (Integrator.set_post_stage_callback).
+model : lean PysphVerif.Model.Stepper + Model.StepperHist (`hist` lines: the
+        object's attributes nnps / callback / fixed_h changed by the setters
+        between steps) run by model_c04 on the program that
         translate/timestep2lean.py derives from the SAME one_timestep source
         (Gen/Timesteps.lean for shipped classes, the wire program for generated
         ones); times are computed at Float and compared bit for bit.
@@ -35,7 +48,14 @@ oracle: the property statement evaluated independently of the model: the
         their current data, and every real particle within the kernel radius of
         a face has its image -- observed at Integrator.update_domain itself, so
         it also holds the code to account when it decides not to reach the
-        NNPS; stepper attributes arrive in the compiled stepper).
+        NNPS; stepper attributes arrive in the compiled stepper).  The literal
+        reading of a history: every refresh / ghost re-creation goes to the
+        NNPS given to the MOST RECENT set_nnps, every callback event to the most
+        recent callback.  Numerically: shipped steppers and generated
+        user-defined steppers (random arithmetic with if/elif/else, `pass`
+        branches) under shipped integrators, compiled step == literal execution
+        of one_timestep by CPython calling the stepper's own methods, bit for
+        bit, ghosts untouched.
 """
 import hashlib
 import importlib
@@ -63,6 +83,7 @@ HSM = 5.0 / 256.0       # smoothing length: radius 2h = 5/128, positions k/64
 GRID = 64
 STAGE_RE = re.compile(r'^stage(\d+)$')
 WORKER_BUDGET = 3 * 3600
+PER_WORKER_LIMIT = 1500    # s; a worker beyond it is killed like a crashed one
 RETRIED = []
 
 # documented pairings: integrator -> stepper classes it is used with in the
@@ -136,19 +157,83 @@ LOGBODY = '''\
 '''
 
 
-def stepper_source(cls, methods, hooks):
+# The code generator decides from the SOURCE TEXT of a stepper method what to
+# emit for it (inspect.getsourcelines / getfullargspec in
+# integrator_cython_helper.py, the CythonGenerator of compyle).  The same
+# method body is therefore rendered in several syntactic shapes that all mean
+# the same thing; every one must be applied to every real particle.
+def _sh_plain(body):
+    return body
+
+
+def _sh_tail_else_pass(body):
+    return body + ['if d_idx < 0:', '    d_cnt[d_idx] += 0.0', 'else:', '    pass']
+
+
+def _sh_tail_if_pass(body):
+    return body + ['if d_idx < 0:', '    pass']
+
+
+def _sh_tail_pass(body):
+    return body + ['# pass', 'pass']
+
+
+def _sh_head_doc_pass(body):
+    return ['"""pass"""', 'pass'] + body
+
+
+def _sh_tail_comment(body):
+    return body + ['# nothing else to do here: pass', '']
+
+
+def _sh_nested(body):
+    # the declaration stays at the top level of the function
+    return body[:1] + ['if d_idx >= 0:'] + ['    ' + ln for ln in body[1:]] + \
+        ['else:', '    pass']
+
+
+def _sh_one_line_if(body):
+    return body + ['if d_idx < 0: pass']
+
+
+SHAPES = {'plain': _sh_plain, 'tail_else_pass': _sh_tail_else_pass,
+          'tail_if_pass': _sh_tail_if_pass, 'tail_pass': _sh_tail_pass,
+          'head_doc_pass': _sh_head_doc_pass, 'tail_comment': _sh_tail_comment,
+          'nested': _sh_nested, 'one_line_if': _sh_one_line_if,
+          # the signature spread over several lines, body plain
+          'multiline_sig': _sh_plain}
+SHAPE_NAMES = sorted(SHAPES)
+
+
+def pick_shapes(rng, methods):
+    """method -> shape; about half of the methods keep the plain shape"""
+    return {m: (rng.choice(SHAPE_NAMES) if rng.random() < 0.55 else 'plain')
+            for m in methods}
+
+
+def stepper_source(cls, methods, hooks, shapes=None):
+    shapes = shapes or {}
     L = ['class %s(IntegratorStep):' % cls,
          '    def __init__(self, aid=0.0, sid=0.0, mv=0.0):',
          '        self.aid = aid',
          '        self.sid = sid',
          '        self.mv = mv']
     for m in methods:
-        L.append('    def %s(self, d_idx, d_elog, d_clk, d_cnt, d_x, t, dt):' % m)
-        L.append((LOGBODY % dict(maxev=MAXEV, nf=NF, code='%d.0' % (100 + mid_of(m)),
-                                 aux='self.aid', e1='self.sid')).rstrip('\n'))
-        L.append('        d_cnt[d_idx] += 1.0')
+        shape = shapes.get(m, 'plain')
+        if shape == 'multiline_sig':
+            L.append('    def %s(self, d_idx, d_elog, d_clk,' % m)
+            L.append('            d_cnt, d_x,')
+            L.append('            t, dt):')
+        else:
+            L.append('    def %s(self, d_idx, d_elog, d_clk, d_cnt, d_x, t, dt):' % m)
+        body = (LOGBODY % dict(maxev=MAXEV, nf=NF, code='%d.0' % (100 + mid_of(m)),
+                               aux='self.aid', e1='self.sid')).rstrip('\n').split('\n')
+        body = [ln[8:] for ln in body]
+        body.append('d_cnt[d_idx] += 1.0')
         if m != 'initialize':
-            L.append('        d_x[d_idx] += self.mv')
+            body.append('d_x[d_idx] += self.mv')
+        for ln in SHAPES[shape](body):
+            L.append(('        ' + ln) if ln else '')
     for m in hooks:
         L.append('    def py_%s(self, dst, t, dt):' % m)
         L.append('        _HOOK[0](self.aid, %d, dst, t, dt)' % mid_of(m))
@@ -181,7 +266,8 @@ def module_source(config):
         st = a.get('stepper')
         if st and st['cls'] not in done:
             done.add(st['cls'])
-            L.append(stepper_source(st['cls'], st['methods'], st['hooks']))
+            L.append(stepper_source(st['cls'], st['methods'], st['hooks'],
+                                    st.get('shapes')))
     # the class name carries the configuration id: no two configurations share
     # a generated evaluator module (they are compiled concurrently)
     L.append(EQ_SOURCE.replace('TrEq_CID', 'TrEq_' + config_id(config)))
@@ -217,22 +303,49 @@ class Recorder(object):
         return k
 
 
-class NNPSProxy(object):
-    def __init__(self, real, rec, arrays):
-        self._real = real
-        self._rec = rec
-        self._arrays = arrays
+NNPS_VARIANTS = ('ll', 'll_cache', 'box')
+_LOGGED = {}
 
-    def update(self):
-        self._rec.py_event(400.0)
-        return self._real.update()
 
-    def update_domain(self):
-        self._rec.py_event(401.0)
-        return self._real.update_domain()
+def logged_nnps_class(variant):
+    """A Python subclass of the shipped NNPS class whose `update` /
+    `update_domain` (the two entry points the integrator uses) record WHICH
+    object was asked before delegating.  Being real NNPS objects they go
+    through the public `integrator.set_nnps` / `a_eval.set_nnps`; nothing is
+    assigned to the integrator behind its back."""
+    if variant in _LOGGED:
+        return _LOGGED[variant]
+    from pysph.base.nnps import LinkedListNNPS, BoxSortNNPS
+    base = {'ll': LinkedListNNPS, 'll_cache': LinkedListNNPS, 'box': BoxSortNNPS}[variant]
 
-    def __getattr__(self, n):
-        return getattr(self._real, n)
+    class Logged(base):
+        def update(self):
+            rec = getattr(self, '_rec', None)     # None while constructing
+            if rec is not None:
+                rec.py_event(400.0, aux=float(self._gen))
+            return base.update(self)
+
+        def update_domain(self):
+            rec = getattr(self, '_rec', None)
+            if rec is not None:
+                rec.py_event(401.0, aux=float(self._gen))
+            return base.update_domain(self)
+    Logged.__name__ = 'Logged_' + variant
+    _LOGGED[variant] = Logged
+    return Logged
+
+
+def make_nnps(variant, arrays, kind, rec, gen):
+    if variant not in NNPS_VARIANTS:
+        raise ValueError('unknown nnps variant %r' % (variant,))
+    cls = logged_nnps_class(variant)
+    kw = dict(dim=1, particles=arrays, domain=make_domain(kind))
+    if variant == 'll_cache':
+        kw['cache'] = True
+    nnps = cls(**kw)
+    nnps._gen = gen
+    nnps._rec = rec
+    return nnps
 
 
 class EvalProxy(object):
@@ -336,6 +449,52 @@ def ghost_check(arrays, kind):
     return bad
 
 
+def case_ops(case):
+    """the history of public calls of a case:
+       ('step', t, dt) | ('nnps', variant) | ('cb', 'new'|'none') |
+       ('fixed_h', bool) | ('grow', array name, n)
+    `case['reconf']` maps a step number to the calls made BEFORE that step
+    (after the steps before it).  Cases recorded before histories existed have
+    steps only."""
+    rc = case.get('reconf') or {}
+    ops = []
+    for i, (t, dt) in enumerate(case['steps']):
+        for op in rc.get(str(i), []):
+            if op[0] == 'nnps' and op[1] in NNPS_VARIANTS and len(op) == 2:
+                ops.append(('nnps', op[1]))
+            elif op[0] == 'cb' and op[1] in ('new', 'none') and len(op) == 2:
+                ops.append(('cb', op[1]))
+            elif op[0] == 'fixed_h' and len(op) == 2:
+                ops.append(('fixed_h', bool(op[1])))
+            elif op[0] == 'grow' and len(op) == 3:
+                ops.append(('grow', str(op[1]), int(op[2])))
+            else:
+                raise ValueError('unknown history op %r' % (op,))
+        ops.append(('step', t, dt))
+    return ops
+
+
+def ops_with_ids(case):
+    """case_ops with the object identities the harness hands out: NNPS objects
+    0 (initial), 1, 2, ...; callbacks 0 (initial, if any), 1, 2, ...
+    -> (initial (nnps id, callback id or None, fixed_h), [op + (id,)])"""
+    gen, cbn = 0, 0
+    out = []
+    for op in case_ops(case):
+        if op[0] == 'nnps':
+            gen += 1
+            out.append(('nnps', op[1], gen))
+        elif op[0] == 'cb':
+            if op[1] == 'new':
+                cbn += 1
+                out.append(('cb', 'new', cbn))
+            else:
+                out.append(('cb', 'none', None))
+        else:
+            out.append(op)
+    return (0, 0 if case['cb'] else None, bool(case.get('fixed_h', False))), out
+
+
 def load_integrator_class(config, mod):
     ig = config['integrator']
     if ig['kind'] == 'generated':
@@ -407,16 +566,14 @@ def run_case(config, case, mod):
             raise
         out['compile_error'] = '%s: %s' % (type(e).__name__, str(e)[-300:])
         return out
-    dm = make_domain(kind)
-    nnps = LinkedListNNPS(dim=1, particles=arrays, domain=dm)
+    nnps = make_nnps(case.get('nnps0', 'll'), arrays, kind, rec, 0)
     for ae in a_evals:
         ae.set_nnps(nnps)
     integ.set_nnps(nnps)
     # what Solver.setup does with its fixed_h argument (--fixed-h)
     integ.set_fixed_h(fixed_h)
-    # observation points (the anchored code keeps running: these only delegate)
-    integ.nnps = NNPSProxy(nnps, rec, arrays)
-    # the generated class calls `self.integrator.update_domain()`: when THAT
+    # observation points (the anchored code keeps running: these only delegate).
+    # The generated class calls `self.integrator.update_domain()`: when THAT
     # returns the ghosts must be the images of the current real particles,
     # whatever the Python method chose to do
     real_update_domain = integ.update_domain
@@ -432,28 +589,55 @@ def run_case(config, case, mod):
     grow = case.get('grow', {})
     grown = [0]
 
+    def add_to(dst, g):
+        xs = [(1 + 2 * (grown[0] + j)) % GRID / float(GRID) for j in range(g)]
+        grown[0] += g
+        dst.add_particles(x=xs, h=[HSM] * g, m=[1.0] * g)
+
     def hook(aid_, mid, dst, t, dt):
         rec.py_event(300.0 + mid, aux=float(aid_),
                      idx=float(dst.get_number_of_particles(True)), t=t, dt=dt)
         g = grow.get(dst.name, {}).get(mname(mid), 0)
         if g:
-            xs = [(1 + 2 * (grown[0] + j)) % GRID / float(GRID) for j in range(g)]
-            grown[0] += g
-            dst.add_particles(x=xs, h=[HSM] * g, m=[1.0] * g)
+            add_to(dst, g)
     mod._HOOK[0] = hook
-    cbs = []
-    if case['cb']:
+
+    def make_cb(cid):
         def cb(t, dt, stage):
-            rec.py_event(500.0, aux=float(stage), t=t, dt=dt)
-            cbs.append((t, dt, stage))
-        integ.set_post_stage_callback(cb)
+            rec.py_event(500.0, aux=float(stage), t=t, dt=dt, e1=float(cid))
+        return cb
+    if case['cb']:
+        integ.set_post_stage_callback(make_cb(0))
     out['n0'] = {pa.name: (pa.get_number_of_particles(True),
                            pa.get_number_of_particles() - pa.get_number_of_particles(True))
                  for pa in arrays}
     out['ghosts_present'] = sum(v[1] for v in out['n0'].values())
     marks = []
     out['raised'] = None
-    for t, dt in case['steps']:
+    keep = [nnps]
+    for op in ops_with_ids(case)[1]:
+        # every call below is the public API, made between two steps
+        if op[0] == 'nnps':
+            rec.py_event(601.0, aux=float(op[2]))
+            new = make_nnps(op[1], arrays, kind, rec, op[2])
+            for ae in a_evals:
+                ae.set_nnps(new)
+            integ.set_nnps(new)
+            keep.append(new)
+            continue
+        if op[0] == 'cb':
+            rec.py_event(602.0)
+            integ.set_post_stage_callback(make_cb(op[2]) if op[1] == 'new' else None)
+            continue
+        if op[0] == 'fixed_h':
+            rec.py_event(603.0)
+            integ.set_fixed_h(op[1])
+            continue
+        if op[0] == 'grow':
+            rec.py_event(600.0, aux=aid[op[1]], idx=float(op[2]))
+            add_to(by_name[op[1]], op[2])
+            continue
+        t, dt = op[1], op[2]
         marks.append(int(clk[0]))
         try:
             integ.step(t, dt)
@@ -512,9 +696,14 @@ def canon_observed(config, case, out):
                                           H.fbits(t), H.fbits(dt)))
             nreal[nm] += case.get('grow', {}).get(nm, {}).get(mname(c - 300), 0)
         elif c == 400:
-            res.append('n')
+            res.append('n:%d' % int(aux))
         elif c == 401:
-            res.append('d')
+            res.append('d:%d' % int(aux))
+        elif c == 600:
+            # particles added to an array between two steps
+            nreal[names[int(aux)]] += int(idx)
+        elif c in (601, 602, 603):
+            pass                # set_nnps / set_post_stage_callback / set_fixed_h
         elif c == 402:
             res.append('e:%d:%s:%s' % (int(aux), H.fbits(t), H.fbits(dt)))
             # the compiled tracer equations of this evaluator follow
@@ -540,7 +729,7 @@ def canon_observed(config, case, out):
             i = j
             continue
         elif c == 500:
-            res.append('c:%s:%s:%d' % (H.fbits(t), H.fbits(dt), int(aux)))
+            res.append('c:%d:%s:%s:%d' % (int(e1), H.fbits(t), H.fbits(dt), int(aux)))
         elif c == 200:
             probs.append(('C04:evaluator-outside-compute',
                           'equations run only inside evaluator.compute',
@@ -557,7 +746,11 @@ def canon_observed(config, case, out):
 class Literal(object):
     """`self` for the integrator's own Python `one_timestep`"""
 
-    def __init__(self, config, case, nreal, t, dt):
+    def __init__(self, config, case, nreal, t, dt, nnps_id=0, cb_id=None):
+        # "the integrator's NNPS" / "the post-stage callback": the objects given
+        # to the most recent set_nnps / set_post_stage_callback of the history
+        self._nnps_id = nnps_id
+        self._cb_id = cb_id
         self._steppers = {a['name']: a['stepper'] for a in config['arrays']
                           if a.get('stepper')}
         self._grow = case.get('grow', {})
@@ -565,7 +758,6 @@ class Literal(object):
         self._t0 = t
         self._cur = t
         self._dt = dt
-        self._cb = case['cb']
         self._nev = config['nev']
         self.ev = []
         self.refreshed = []     # per eval event: were neighbours refreshed
@@ -596,28 +788,41 @@ class Literal(object):
 
     def compute_accelerations(self, index=0, update_nnps=True):
         if update_nnps:
-            self.ev.append('n')
+            self.ev.append('n:%d' % self._nnps_id)
         if not 0 <= index < self._nev:
             raise IndexError(index)
         self.refreshed.append(bool(update_nnps))
         self.ev.append('e:%d:%s:%s' % (index, H.fbits(self._cur), H.fbits(self._dt)))
 
     def update_domain(self):
-        self.ev.append('d')
+        self.ev.append('d:%d' % self._nnps_id)
 
     def do_post_stage(self, stage_dt, stage):
         self._cur = self._t0 + stage_dt
-        if self._cb:
-            self.ev.append('c:%s:%s:%d' % (H.fbits(self._cur), H.fbits(self._dt),
-                                           stage))
+        if self._cb_id is not None:
+            self.ev.append('c:%d:%s:%s:%d' % (self._cb_id, H.fbits(self._cur),
+                                              H.fbits(self._dt), stage))
 
 
 def literal_events(config, case, cls, n0):
     nreal = {n: v[0] for n, v in n0.items()}
     ev = []
     refreshed = []
-    for t, dt in case['steps']:
-        lit = Literal(config, case, nreal, t, dt)
+    (nnps_id, cb_id, _), ops = ops_with_ids(case)
+    for op in ops:
+        if op[0] == 'nnps':
+            nnps_id = op[2]
+            continue
+        if op[0] == 'cb':
+            cb_id = op[2]
+            continue
+        if op[0] == 'fixed_h':
+            continue            # no statement of one_timestep depends on it
+        if op[0] == 'grow':
+            nreal[op[1]] += op[2]
+            continue
+        t, dt = op[1], op[2]
+        lit = Literal(config, case, nreal, t, dt, nnps_id, cb_id)
         try:
             cls.one_timestep(lit, t, dt)
         except (AttributeError, IndexError) as e:
@@ -648,8 +853,91 @@ class ZEq_CID(Equation):
 
 def numeric_module_source(config):
     cid = config_id(config)
-    return ('from pysph.sph.equation import Equation\n' +
-            ZEQ_SOURCE.replace('ZEq_CID', 'ZEq_' + cid) + 'ZEq = ZEq_' + cid + '\n')
+    src = ('from pysph.sph.equation import Equation\n' +
+           ZEQ_SOURCE.replace('ZEq_CID', 'ZEq_' + cid) + 'ZEq = ZEq_' + cid + '\n')
+    if config.get('stepper_src'):
+        src += 'from pysph.sph.integrator_step import IntegratorStep\n' + \
+            config['stepper_src']
+    return src
+
+
+# generated ("user-defined") steppers with arithmetic and control flow: random
+# bodies over the properties x, u, au, x0, u0, w and the attributes a, b of the
+# stepper; branches that are a bare `pass`, trailing `else: pass`, elif chains.
+# Only + - * (exact in doubles or identically rounded in C and in CPython).
+GPROPS = ['x', 'u', 'au', 'x0', 'u0', 'w']
+
+
+def _g_expr(rng, depth=0):
+    r = rng.random()
+    if depth >= 2 or r < 0.35:
+        return rng.choice(['d_%s[d_idx]' % rng.choice(GPROPS), 'dt', 't', 'self.a', 'self.b',
+                           rng.choice(['0.5', '2.0', '0.25', '1.5', '3.0', '0.1'])])
+    op = rng.choice(['+', '-', '*', '*'])
+    return '(%s %s %s)' % (_g_expr(rng, depth + 1), op, _g_expr(rng, depth + 1))
+
+
+def _g_cond(rng):
+    r = rng.random()
+    if r < 0.4:
+        return 'd_%s[d_idx] %s %s' % (rng.choice(GPROPS), rng.choice(['<', '>', '<=', '>=']),
+                                      rng.choice(['0.0', '0.5', '-0.25']))
+    if r < 0.6:
+        return 'd_idx %s %d' % (rng.choice(['<', '>=', '==']), rng.randrange(3))
+    if r < 0.8:
+        return '%s > %s' % (_g_expr(rng, 1), _g_expr(rng, 1))
+    return 'dt < %s' % rng.choice(['0.125', '0.2', '0.0'])
+
+
+def _g_assign(rng):
+    return 'd_%s[d_idx] %s %s' % (rng.choice(GPROPS), rng.choice(['=', '+=', '-=']),
+                                  _g_expr(rng))
+
+
+def _g_block(rng, depth=0):
+    out = []
+    for _ in range(rng.choice([1, 1, 2, 3])):
+        r = rng.random()
+        if r < 0.55 or depth >= 2:
+            out.append(_g_assign(rng))
+            continue
+        out.append('if %s:' % _g_cond(rng))
+        a = ['pass'] if rng.random() < 0.3 else _g_block(rng, depth + 1)
+        out += ['    ' + ln for ln in a]
+        if rng.random() < 0.3:
+            out.append('elif %s:' % _g_cond(rng))
+            out += ['    ' + ln for ln in _g_block(rng, depth + 1)]
+        if rng.random() < 0.7:
+            out.append('else:')
+            b = ['pass'] if (a != ['pass'] and rng.random() < 0.5) else _g_block(rng, depth + 1)
+            out += ['    ' + ln for ln in b]
+    return out
+
+
+def gen_numeric_stepper(rng, cls, nstages):
+    L = ['class %s(IntegratorStep):' % cls,
+         '    def __init__(self, a=0.5, b=-1.25):',
+         '        self.a = a',
+         '        self.b = b']
+    meths = ['initialize'] + ['stage%d' % k for k in range(1, nstages + 1)]
+    for m in meths:
+        body = _g_block(rng)
+        tail = rng.random()
+        if tail < 0.25 and body[-1] != '    pass':
+            body += ['if %s:' % _g_cond(rng), '    ' + _g_assign(rng), 'else:', '    pass']
+        elif tail < 0.35:
+            body += ['pass']
+        elif tail < 0.45:
+            body = ['pass'] + body
+        text = '\n'.join(body)
+        args = ['d_idx'] + ['d_' + q for q in GPROPS if ('d_%s[' % q) in text]
+        if re.search(r'\bt\b', text):
+            args.append('t')
+        if re.search(r'\bdt\b', text):
+            args.append('dt')
+        L.append('    def %s(self, %s):' % (m, ', '.join(args)))
+        L += ['        ' + ln for ln in body]
+    return '\n'.join(L) + '\n'
 
 
 class LiteralNumeric(object):
@@ -715,7 +1003,14 @@ def run_numeric_case(config, case, mod):
     from pysph.base.nnps import LinkedListNNPS
     from pysph.sph.sph_compiler import SPHCompiler
     sm, sc = config['stepper'].rsplit('.', 1)
-    Step = getattr(importlib.import_module(sm), sc)
+    if config.get('stepper_src'):
+        Step0 = getattr(mod, sc)
+    else:
+        Step0 = getattr(importlib.import_module(sm), sc)
+    skw = case.get('skw', {})
+
+    def Step():
+        return Step0(**skw)
     cls = load_integrator_class(config, mod)
     rng = random.Random(case['seed'])
     nr, ng = case['n_real'], case['n_ghost']
@@ -816,7 +1111,8 @@ def worker(job):
         mod = importlib.import_module(modname)
         cls = load_integrator_class(config, mod)
         if config.get('numeric'):
-            for case in cases:
+            for ci, case in enumerate(cases):
+                print('case %d: %s' % (ci, json.dumps(case, sort_keys=True)), flush=True)
                 r = {'case': case}
                 try:
                     r['numeric'] = run_numeric_case(config, case, mod)
@@ -825,7 +1121,7 @@ def worker(job):
                 results.append(r)
             return {'config': config, 'results': results, 'secs': time.time() - t0}
         for ci, case in enumerate(cases):
-            print('case %d: %s' % (ci, json.dumps(case)), flush=True)
+            print('case %d: %s' % (ci, json.dumps(case, sort_keys=True)), flush=True)
             r = {'case': case}
             try:
                 out = run_case(config, case, mod)
@@ -888,9 +1184,12 @@ def worker(job):
 # --------------------------------------------------------------------------
 # configurations and cases
 
-def tracer_for(sig, cls):
+def tracer_for(sig, cls, shapes=None):
     ms, hs = sig
-    return {'cls': cls, 'methods': list(ms), 'hooks': list(hs)}
+    st = {'cls': cls, 'methods': list(ms), 'hooks': list(hs)}
+    if shapes:
+        st['shapes'] = {m: shapes[m] for m in ms if shapes.get(m, 'plain') != 'plain'}
+    return st
 
 
 def program_of(config, tab):
@@ -916,6 +1215,7 @@ def shipped_config(q, tab, rng, variant):
     rng.shuffle(names)
     narr = 1 + (variant % 3)
     arrays = []
+    shapes_of = {}          # arrays sharing a tracer class share its source
     for i in range(narr):
         sq = pairs[(variant + i) % len(pairs)]
         sig = tab['steppers'][sq]
@@ -923,7 +1223,9 @@ def shipped_config(q, tab, rng, variant):
         # attributes, re-created in C from their own __dict__
         cls = 'Tr_' + '_'.join(mwire(m) for m in sig[0]) + '__' + \
             '_'.join(mwire(m) for m in sig[1])
-        arrays.append({'name': names[i], 'stepper': tracer_for(sig, cls),
+        if cls not in shapes_of:
+            shapes_of[cls] = pick_shapes(rng, sig[0])
+        arrays.append({'name': names[i], 'stepper': tracer_for(sig, cls, shapes_of[cls]),
                        'mirrors': sq})
     if variant % 2 == 1 or narr == 1:
         arrays.insert(rng.randrange(len(arrays) + 1),
@@ -965,7 +1267,8 @@ def generated_config(rng, idx, allow_error=False):
         if i == 0 and rng.random() < 0.3:
             ms = [m for m in ms if m != 'initialize']
         arrays.append({'name': names[i],
-                       'stepper': {'cls': 'G%d_%d' % (idx, i), 'methods': ms, 'hooks': hs}})
+                       'stepper': tracer_for((ms, hs), 'G%d_%d' % (idx, i),
+                                             pick_shapes(rng, ms))})
     if rng.random() < 0.5:
         arrays.insert(rng.randrange(len(arrays) + 1), {'name': names[narr], 'stepper': None})
     wr = set()
@@ -1008,13 +1311,49 @@ def generated_config(rng, idx, allow_error=False):
         bad = rng.choice(['self.stage%d()' % (nst + 1),
                           'self.compute_accelerations(%d)' % nev,
                           'self.compute_accelerations(%d, update_nnps=False)' % (nev + 1)])
-        body.insert(rng.randrange(len(body) + 1), bad)
+        # never between a `for` header and its body
+        slots = [i for i in range(len(body) + 1)
+                 if not (i < len(body) and body[i].startswith(' '))]
+        body.insert(rng.choice(slots), bad)
     if not body:
         body = ['pass']
+    body = decorate_timestep(rng, body)
     src = 'def one_timestep(self, t, dt):\n' + \
-        ''.join('    %s\n' % ln for ln in body)
+        ''.join(('    %s\n' % ln) if ln else '\n' for ln in body)
     return {'integrator': {'kind': 'generated', 'source': src}, 'arrays': arrays,
             'nev': nev}
+
+
+def decorate_timestep(rng, body):
+    """the body of one_timestep is PASTED into the compiled class from its
+    source text (get_timestep_code): same statements, different text"""
+    out = []
+    if rng.random() < 0.3:
+        out.append('"""One step.  pass')
+        out.append('')
+        out.append('self.stage9() is not called here.')
+        out.append('"""')
+    if rng.random() < 0.15:
+        out.append('pass')
+    for ln in body:
+        r = rng.random()
+        if r < 0.12 and not ln.startswith(' ') and not ln.endswith(':'):
+            out.append('# ' + ln)
+        elif r < 0.2 and not ln.startswith(' '):
+            out.append('')
+        m = re.match(r'^(self\.do_post_stage)\((.*), (\d+)\)$', ln)
+        if m and '=' not in ln and rng.random() < 0.25:
+            out.append('%s(' % m.group(1))
+            out.append('    %s,' % m.group(2))
+            out.append('    %s' % m.group(3))
+            out.append(')')
+        elif rng.random() < 0.1 and not ln.endswith(':'):
+            out.append(ln + '  # pass')
+        else:
+            out.append(ln)
+    if rng.random() < 0.2:
+        out.append('pass')
+    return out
 
 
 def gen_accel(rng, nev):
@@ -1047,7 +1386,7 @@ def gen_case(rng, config, prog, k):
         rng.shuffle(xs)
         x[n] = xs
     steps = []
-    nsteps = rng.choice([1, 2, 3, 4])
+    nsteps = rng.choice([1, 2, 3, 4]) if k % 2 else rng.choice([2, 3, 4])
     t = rng.choice([0.0, 1.0, rng.uniform(0, 10)])
     for _ in range(nsteps):
         dt = rng.choice([0.25, 0.1, 1e-3, rng.uniform(1e-5, 0.5)])
@@ -1064,8 +1403,30 @@ def gen_case(rng, config, prog, k):
                 m = rng.choice(st['hooks'])
                 grow[a['name']] = {m: rng.choice([1, 2])}
     dom, fixed_h = MATRIX[k % len(MATRIX)]
+    # public calls between the steps, on the SAME integrator object: a second
+    # set_nnps (other object / class / neighbour cache), another callback or
+    # None, set_fixed_h toggled, particles added by the user
+    reconf = {}
+    can_grow = not has_stale_eval(prog)
+    if nsteps > 1 and k % 2 == 0:
+        for i in range(1, nsteps):
+            ops = []
+            if rng.random() < 0.6:
+                ops.append(['nnps', rng.choice(NNPS_VARIANTS)])
+            if rng.random() < 0.4:
+                ops.append(['cb', rng.choice(['new', 'new', 'none'])])
+            if rng.random() < 0.3:
+                ops.append(['fixed_h', rng.random() < 0.5])
+            if can_grow and rng.random() < 0.25:
+                ops.append(['grow', rng.choice(names), rng.choice([1, 2])])
+            rng.shuffle(ops)
+            if ops:
+                reconf[str(i)] = ops
+    if nsteps > 1 and k % 2 == 0 and not any(o[0] == 'nnps' for v in reconf.values() for o in v):
+        reconf.setdefault('1', []).append(['nnps', rng.choice(NNPS_VARIANTS)])
     return {
         'domain': dom, 'fixed_h': fixed_h,
+        'nnps0': rng.choice(NNPS_VARIANTS), 'reconf': reconf,
         'x': x, 'steps': steps,
         'cb': (k % 4 != 3),
         'mv': {n: rng.choice([0, 1, -1, 2, 3, -5]) for n in names},
@@ -1090,10 +1451,23 @@ def model_line(config, case, prog_wire, n0, mode='impl'):
             '+'.join(mwire(m) for m in st['methods']) or '-',
             '+'.join(mwire(m) for m in st['hooks']) or '-',
             '+'.join('%s~%d' % (mwire(m), n) for m, n in sorted(g.items())) or '-'))
-    steps = ','.join('%s:%s' % (H.fbits(t), H.fbits(dt)) for t, dt in case['steps'])
-    return 'run mode=%s prog=%s cb=%d nev=%d arrs=%s steps=%s' % (
-        mode, prog_wire, 1 if case['cb'] else 0, config['nev'],
-        '|'.join(arrs) or '_', steps or '_')
+    (nnps_id, cb_id, fixed_h), ops = ops_with_ids(case)
+    w = []
+    for op in ops:
+        if op[0] == 'step':
+            w.append('S%s:%s' % (H.fbits(op[1]), H.fbits(op[2])))
+        elif op[0] == 'nnps':
+            w.append('N%d' % op[2])
+        elif op[0] == 'cb':
+            w.append('C-' if op[2] is None else 'C%d' % op[2])
+        elif op[0] == 'fixed_h':
+            w.append('F%d' % (1 if op[1] else 0))
+        elif op[0] == 'grow':
+            w.append('G%s~%d' % (op[1], op[2]))
+    return 'hist mode=%s prog=%s nev=%d arrs=%s py=%d:%s:%d ops=%s' % (
+        mode, prog_wire, config['nev'], '|'.join(arrs) or '_',
+        nnps_id, '-' if cb_id is None else str(cb_id), 1 if fixed_h else 0,
+        ','.join(w) or '_')
 
 
 def first_diff(a, b):
@@ -1116,7 +1490,7 @@ def classify(config, want, got):
         return 'C04:%s:none' % who
     _, w, g = d
     kinds = {'s': 'step', 'h': 'hook', 'n': 'nnps', 'e': 'eval', 'd': 'domain',
-             'c': 'callback', '<': 'end'}
+             'c': 'callback', '<': 'end', 'x': 'abort'}
     kw, kg = kinds[w[0]], kinds[g[0]]
     if kw == kg:
         wf, gf = w.split(':'), g.split(':')
@@ -1125,9 +1499,11 @@ def classify(config, want, got):
         elif kw in ('hook', 'eval'):
             what = 'time' if wf[:-2] == gf[:-2] else 'target'
         elif kw == 'callback':
-            what = 'arguments'
+            what = 'target' if wf[1] != gf[1] else 'arguments'
         else:
-            what = 'x'
+            # refresh / ghost re-creation asked of another NNPS object than the
+            # integrator's current one
+            what = 'target'
         return 'C04:%s:%s-%s' % (who, kw, what)
     return 'C04:%s:%s-instead-of-%s' % (who, kg, kw)
 
@@ -1141,12 +1517,25 @@ def evaluate(jobs_out, tab, R, gen_table):
         if 'fatal' in jo:
             raise SystemExit('worker failed for %s:\n%s' % (
                 json.dumps(config['integrator']), jo['fatal']))
+        for cr in jo.get('crashed', []):
+            ig_ = config['integrator']
+            who_ = ig_['cls'].rsplit('.', 1)[-1] if ig_['kind'] == 'shipped' else 'generated'
+            R.prop_fail('C04:%s:crash' % who_, {'config': config, 'case': cr['case']},
+                        'every step of the history returns and leaves the particles in the '
+                        'state of the literal execution',
+                        'the process executing the history died with signal %d (twice in a row, '
+                        'alone in its process): %s' % (cr['signal'], '; '.join(cr.get('where', []))[:500]))
+            R.case(json.dumps({'config': config, 'case': cr['case']}, sort_keys=True), True, None)
         if config.get('numeric'):
             evaluate_numeric(jo, R)
             continue
         prog = program_of(config, tab)
         ig = config['integrator']
         pw = T2L.wire_program(prog)
+        for a_ in config['arrays']:
+            st_ = a_.get('stepper') or {}
+            for m_ in st_.get('methods', []):
+                R.count('method-shape:%s' % st_.get('shapes', {}).get(m_, 'plain'))
         if ig['kind'] == 'shipped':
             # the committed/generated Lean table must be the translation of
             # this very tree
@@ -1232,7 +1621,7 @@ def evaluate(jobs_out, tab, R, gen_table):
                                           'none': 'none: no domain'}[dom], dom, fixed_h),
                         'after the update_domain() that returned at event %d: %s'
                         % (k2, repr(b)[:600]))
-        n_d_lit = len([e for e in (lit or []) if e == 'd'])
+        n_d_lit = len([e for e in (lit or []) if e.startswith('d:')])
         if lit is not None and not (obs and obs[-1].startswith('x:')) \
                 and r['n_domain'] != n_d_lit:
             R.prop_fail('C04:%s:update-domain-calls' % who, full,
@@ -1241,6 +1630,11 @@ def evaluate(jobs_out, tab, R, gen_table):
         # final registers: t = last stage time of the last step
         R.count('callback:%s' % ('set' if case['cb'] else 'none'))
         R.count('steps:%d' % len(case['steps']))
+        hist_ops = [op for op in case_ops(case) if op[0] != 'step']
+        R.count('history:%s' % ('steps-only' if not hist_ops else 'with-public-calls-between-steps'))
+        for op in hist_ops:
+            R.count('history-op:%s' % (op[0] if op[0] not in ('nnps', 'cb') else '%s=%s' % op[:2]))
+        R.count('nnps0=%s' % case.get('nnps0', 'll'))
         if case.get('grow'):
             R.count('hook-adds-particles')
         if any(c[0] == 'A' and not c[2] for c in prog):
@@ -1303,6 +1697,42 @@ def numeric_jobs(pairs, rng, ncases, work):
     return jobs
 
 
+GEN_NUMERIC_HOSTS = [('pysph.sph.integrator.EulerIntegrator', 1),
+                     ('pysph.sph.integrator.PECIntegrator', 2),
+                     ('pysph.sph.integrator.EPECIntegrator', 2),
+                     ('pysph.sph.integrator.TVDRK3Integrator', 3)]
+
+
+def gen_numeric_jobs(rng, nconf, ncases, work, tab):
+    """user-defined steppers (generated source with control flow) under shipped
+    integrators: compiled step vs literal execution of one_timestep by CPython
+    calling the stepper's own Python methods, bit for bit"""
+    jobs = []
+    hosts = [h for h in GEN_NUMERIC_HOSTS if h[0] in tab['integrators']]
+    for g in range(nconf):
+        q, nst = hosts[g % len(hosts)] if g < len(hosts) else rng.choice(hosts)
+        prog = tab['programs'][tab['integrators'][q]][0]
+        nev = 1 + max([c[1] for c in prog if c[0] == 'A'] + [0])
+        name = 'GenStep%d' % g
+        cfg = {'numeric': True, 'integrator': {'kind': 'shipped', 'cls': q},
+               'stepper': 'generated.' + name, 'nev': nev,
+               'stepper_src': gen_numeric_stepper(rng, name, nst)}
+        cases = []
+        for k in range(ncases):
+            steps = []
+            t = rng.choice([0.0, rng.uniform(0, 5)])
+            for _ in range(rng.choice([1, 2, 3, 4])):
+                dt = rng.choice([0.125, 0.25, rng.uniform(1e-4, 0.3)])
+                steps.append([t, dt])
+                t = t + dt
+            cases.append({'n_real': rng.choice([2, 4, 5, 7]), 'n_ghost': rng.choice([1, 2, 3]),
+                          'seed': rng.randrange(10 ** 9), 'steps': steps,
+                          'skw': {'a': rng.choice([0.5, -0.75, 2.0]),
+                                  'b': rng.choice([-1.25, 0.125, 1.0])}})
+        jobs.append((cfg, cases, work))
+    return jobs
+
+
 def run_jobs(jobs, nproc):
     """every configuration in its own interpreter (plain subprocesses: no
     fork of a threaded parent, a crash or hang of one cannot wedge the pool);
@@ -1328,6 +1758,7 @@ def run_jobs(jobs, nproc):
             json.dump({'config': job[0], 'cases': job[1], 'work': job[2]}, fh)
         files.append((jf, jf[:-5] + '.out.json', jf[:-5] + '.log'))
     running = {}
+    started = {}
     todo = list(range(len(jobs)))
     rcs = {}
     t_start = time.time()
@@ -1338,7 +1769,11 @@ def run_jobs(jobs, nproc):
             running[i] = subprocess.Popen(
                 [sys.executable, os.path.abspath(__file__), '--worker', jf, of],
                 stdout=open(lf, 'w'), stderr=subprocess.STDOUT, cwd=work)
+            started[i] = time.time()
         for i, p in list(running.items()):
+            if p.poll() is None and time.time() - started[i] > PER_WORKER_LIMIT:
+                p.kill()            # a hang: handled like a crash (rc -9)
+                p.wait()
             if p.poll() is not None:
                 rcs[i] = p.returncode
                 del running[i]
@@ -1350,14 +1785,8 @@ def run_jobs(jobs, nproc):
     outs = []
     for i, (jf, of, lf) in enumerate(files):
         if (rcs.get(i) != 0 or not os.path.exists(of)) and rcs.get(i, 0) < 0:
-            # killed by a signal (seen once, -11, on a machine with load > 100 and
-            # not reproducible with the same input): run it once more, alone
-            RETRIED.append('%s: worker died with signal %d, re-run'
-                           % (config_id(jobs[i][0]), -rcs[i]))
-            p = subprocess.run([sys.executable, '-X', 'faulthandler', os.path.abspath(__file__),
-                                '--worker', jf, of], stdout=open(lf, 'a'),
-                               stderr=subprocess.STDOUT, cwd=work)
-            rcs[i] = p.returncode
+            outs.append(rerun_crashed(jobs[i], i, jf, of, lf, rcs[i], work))
+            continue
         if rcs.get(i) != 0 or not os.path.exists(of):
             tail = open(lf).read()[-3000:] if os.path.exists(lf) else ''
             outs.append({'config': jobs[i][0], 'results': [],
@@ -1365,6 +1794,67 @@ def run_jobs(jobs, nproc):
         else:
             outs.append(json.load(open(of)))
     return outs
+
+
+def run_alone(config, cases, jf, of, lf, work):
+    """-> (return code (negative: signal; -9 also for a hang), result or None,
+    tail of the log)"""
+    import subprocess
+    with open(jf, 'w') as fh:
+        json.dump({'config': config, 'cases': cases, 'work': work}, fh)
+    if os.path.exists(of):
+        os.unlink(of)
+    with open(lf, 'w') as lg:
+        try:
+            p = subprocess.run([sys.executable, '-X', 'faulthandler',
+                                os.path.abspath(__file__), '--worker', jf, of], stdout=lg,
+                               stderr=subprocess.STDOUT, cwd=work, timeout=PER_WORKER_LIMIT)
+            rc = p.returncode
+        except subprocess.TimeoutExpired:
+            rc = -9
+    tail = open(lf, errors='replace').read()[-3000:]
+    if rc == 0 and os.path.exists(of):
+        return 0, json.load(open(of)), tail
+    return (rc if rc != 0 else 1), None, tail
+
+
+def rerun_crashed(job, i, jf, of, lf, rc, work):
+    """a worker was killed by a signal (or for hanging).  Run the configuration
+    again, alone:
+      * it completes -> a machine hiccup (seen once, -11, at load > 100), noted;
+      * it dies again -> every case of the configuration is run in a process
+        of its own; a case whose process dies twice in a row is recorded in
+        `crashed` (a property failure: the property demands a result, and a
+        crash need not be deterministic to be one), the others are evaluated
+        as usual;
+      * a worker that exits with a Python error is machinery trouble (fatal)."""
+    config, cases = job[0], list(job[1])
+    rc2, res, tail = run_alone(config, cases, jf, of, lf, work)
+    if rc2 == 0:
+        RETRIED.append('%s: worker died with signal %d, re-run alone: completed'
+                       % (config_id(config), -rc))
+        return res
+    if rc2 > 0:
+        return {'config': config, 'results': [],
+                'fatal': 'worker exited %r, then %r when re-run alone\n%s' % (rc, rc2, tail)}
+    results, crashed = [], []
+    for case in cases:
+        for attempt in (1, 2):
+            rc3, res, tail = run_alone(config, [case], jf, of, lf, work)
+            if rc3 == 0:
+                results += res.get('results', [])
+                break
+            if rc3 > 0:
+                return {'config': config, 'results': [],
+                        'fatal': 'worker exited %r on a single case\n%s' % (rc3, tail)}
+        else:
+            crashed.append({'case': case, 'signal': -rc3,
+                            'where': [ln.strip() for ln in tail.split('\n')
+                                      if ln.startswith('  File ')][:5]})
+    RETRIED.append('%s: worker died with signals %d, %d: cases run one per process, %d of %d '
+                   'crash twice in a row' % (config_id(config), -rc, -rc2, len(crashed),
+                                             len(cases)))
+    return {'config': config, 'results': results, 'crashed': crashed, 'secs': 0}
 
 
 def worker_main(jobfile, outfile):
@@ -1424,6 +1914,42 @@ def corpus_configs(tab):
     out.append((eul, [dict(base, domain=d, fixed_h=f)
                       for d, f in [('mirror', True), ('mirror', False), ('periodic', True),
                                    ('none', True)]]))
+    # seed A3 (minimised): has_stepper_loop dropped the particle loop of a stepper
+    # method whose LAST source line is `pass` (a trailing `else: pass`): the
+    # generator's decisions depend on the source text of the user's methods, so
+    # the same tracer body comes in several syntactic shapes.
+    shp = {'integrator': {'kind': 'shipped', 'cls': 'pysph.sph.integrator.PECIntegrator'},
+           'arrays': [{'name': 'free', 'stepper': {
+               'cls': 'K4', 'methods': ['initialize', 'stage1', 'stage2'], 'hooks': [],
+               'shapes': {'initialize': 'head_doc_pass', 'stage1': 'multiline_sig',
+                          'stage2': 'tail_comment'}}},
+               {'name': 'wall', 'stepper': {
+                   'cls': 'K5', 'methods': ['initialize', 'stage1', 'stage2'], 'hooks': ['stage2'],
+                   'shapes': {'initialize': 'tail_pass', 'stage1': 'nested',
+                              'stage2': 'tail_else_pass'}}},
+               {'name': 'a_in', 'stepper': {
+                   'cls': 'K6', 'methods': ['stage1', 'stage2'], 'hooks': [],
+                   'shapes': {'stage1': 'tail_if_pass', 'stage2': 'one_line_if'}}}],
+           'nev': 1}
+    out.append((shp, [{'x': {'free': [0, 9, 40], 'wall': [63, 17], 'a_in': [1, 33]},
+                       'steps': [[0.5, 0.125], [0.625, 0.25]], 'cb': True,
+                       'mv': {'free': 1, 'wall': -1, 'a_in': 2},
+                       'sid': {'free': 3, 'wall': 4, 'a_in': 5}, 'grow': {},
+                       'domain': 'periodic', 'fixed_h': False}]))
+    # seed B3 (minimised): compute_accelerations cached the bound
+    # `self.nnps.update` of the first NNPS; after a second public set_nnps the
+    # integrator kept refreshing the abandoned object.  History: step, replace
+    # the NNPS (and the callback), step while the particles cross cells, toggle
+    # fixed_h and add particles, step, replace NNPS and drop the callback, step.
+    hist = {'x': {'fluid': [1, 30, 31, 33, 62]},
+            'steps': [[0.0, 0.125], [0.125, 0.125], [0.25, 0.25], [0.5, 0.125]],
+            'cb': True, 'mv': {'fluid': 3}, 'sid': {'fluid': 3}, 'grow': {},
+            'nnps0': 'll',
+            'reconf': {'1': [['nnps', 'll_cache'], ['cb', 'new']],
+                       '2': [['fixed_h', True], ['grow', 'fluid', 2]],
+                       '3': [['cb', 'none'], ['nnps', 'box']]}}
+    out.append((eul, [dict(hist, domain=d, fixed_h=False)
+                      for d in ('periodic', 'none', 'mirror')]))
     src2 = src.replace('self.compute_accelerations(1)', 'self.compute_accelerations(0)')
     out.append(({'integrator': {'kind': 'generated', 'source': src2},
                  'arrays': [{'name': 'fluid', 'stepper': {'cls': 'K2', 'methods': ['stage1', 'stage2'],
@@ -1499,6 +2025,7 @@ def build_jobs(tier, seed, work, tab, R):
     else:
         npairs = allpairs
     jobs += numeric_jobs(npairs, rng, 6 if quick else 12, work)
+    jobs += gen_numeric_jobs(rng, 2 if quick else 12, 6 if quick else 12, work, tab)
     return jobs, pick
 
 
@@ -1508,7 +2035,10 @@ def main():
         'case = (integrator class or generated one_timestep source, tracer stepper per array, '
         'initial particles on a 1/64 grid in the unit interval, domain periodic / mirror '
         '(reflecting walls) with ghost images / none, integrator.set_fixed_h False / True, '
-        'callback set or not, 1-4 consecutive steps (t, dt), hooks that add particles); '
+        'callback set or not, 1-4 consecutive steps (t, dt) interleaved with public calls on the '
+        'same integrator object (set_nnps with a new NNPS object of another class / cache setting, '
+        'set_post_stage_callback with another callback or None, set_fixed_h, particles added), '
+        'syntactic shape of every tracer method, hooks that add particles); '
         'distinct = distinct (configuration, case) JSON; non-trivial = more than 3 events and '
         'ghosts present (periodic, mirror) or no domain configured')
     repo = os.environ.get('PYSPH_VERIF_SCRATCH_REPO')
